@@ -1,5 +1,5 @@
 SPECIFICATION GenSpec
-CONSTANTS MaxNodes = 3 Kinds <- KindsQ Pos <- PosQ3 Keys <- KeysQ
+CONSTANTS MaxNodes = 4 Kinds <- KindsQ Pos <- PosQ3 Keys <- KeysQ
 VIEW ShapeView
 ACTION_CONSTRAINT Emit
 CHECK_DEADLOCK FALSE
